@@ -470,6 +470,7 @@ func runC09(c *Ctx) {
 	}
 	c09Large(c)
 	c09Wide(c)
+	c09Families(c)
 	// the view representations stay live: query, edit the underlying graph, query again
 	var vcs []viewCase
 	for n := 3; n <= 5; n++ {
@@ -545,6 +546,10 @@ func replayC09(kind string, raw json.RawMessage) *Failure {
 		var lc c09LargeCase
 		json.Unmarshal(raw, &lc)
 		return evalC09Large(lc)
+	case "c09-family":
+		var fc c09FamCase
+		json.Unmarshal(raw, &fc)
+		return evalC09Fam(fc)
 	case "c09-wide":
 		var wc c09WideCase
 		json.Unmarshal(raw, &wc)
